@@ -65,6 +65,9 @@ func newSession(cfg config, domain uint32) (*session, error) {
 			in.CACert = ca.CertPEM // tls6 also exercises client authentication
 		}
 	}
+	if cfg.proto == "tcp" {
+		in.TemplateTTL = 1 // seconds; template lifetime management is for UDP (RFC 7011 8.4): over tcp/tls it must not bite
+	}
 	coll, err := lib.StartCollector(in)
 	if err != nil {
 		return nil, err
@@ -496,6 +499,24 @@ func oneCase(c *hx.Ctx, k int, s *session, elems []regtable.Elem, recs [][][]byt
 		}
 	}
 	c.Add("records_compared", int64(len(recs)))
+	if s.stream() && k%97 == 13 {
+		// Over a stream transport a template is sent once and holds for the session: the same records sent again
+		// after the session has been idle for longer than the collector's configured template lifetime (1 s for
+		// the stream collectors of this check; the lifetime is a matter of UDP) must still be delivered.
+		time.Sleep(1300 * time.Millisecond)
+		dset := entities.NewSet(false)
+		if err := lib.FillDataSet(dset, tid, elems, recs, r); err != nil {
+			return fail("dataset-error", err.Error())
+		}
+		if _, err := s.ep.SendSet(dset); err != nil {
+			return fail("send-data-error", "after an idle period: "+err.Error())
+		}
+		d, ok := s.next(c, 30*time.Second, tid, false)
+		if !ok || d.Out.ExtractErr != nil || d.Out.IsTemplate || d.Out.SetID != tid || len(d.Out.Records) != len(recs) {
+			return fail("not-delivered-after-idle", fmt.Sprintf("the data message sent 1.3 s after the previous one on the same %s session was not delivered as sent", cfgName))
+		}
+		c.Add("data_delivered_after_an_idle_period_longer_than_the_template_ttl", 1)
+	}
 	return true
 }
 
